@@ -54,12 +54,14 @@ def scalar_exprs(tier):
     if tier == "thorough":
         ats = ["a", "b", "c", "p", "2", "der(x)"]
         for o1, o2, o3 in itertools.product(BIN, BIN, BIN):
-            out.append(f"a {o1} b {o2} c {o3} p")
+            if (o1, o2) != ("^", "^") and (o2, o3) != ("^", "^"):  # `x ^ y ^ z` is not Modelica (non-associative)
+                out.append(f"a {o1} b {o2} c {o3} p")
             out.append(f"(a {o1} (b {o2} c)) {o3} u")
             out.append(f"a {o1} ((b {o2} c) {o3} k)")
         for f, o1, o2 in itertools.product(FUN1 + FUN2, BIN, BIN):
             arg = "a, b" if f in FUN2 else "a"
-            out.append(f"c {o1} {f}({arg}) {o2} x")
+            if (o1, o2) != ("^", "^"):
+                out.append(f"c {o1} {f}({arg}) {o2} x")
             out.append(f"{f}({'a ' + o1 + ' b, c' if f in FUN2 else 'a ' + o1 + ' b'}) {o2} c")
         for r, o in itertools.product(REL, BIN):
             out.append(f"if a {o} b {r} c then a {o} 1 else b")
